@@ -737,6 +737,7 @@ def run_stream(ctx, model, cases, stream, tol=common.TOL, on_result=None, rerun=
         if rerun and out["status"] == "ok":
             # the same command over the very same input objects again (no copies in between) must give the same result:
             # a body that writes into an input array corrupts every later consumer of that input
+            snap = [(numpy.ma.getmaskarray(a).copy(), numpy.ma.getdata(a).copy()) for a in c.inputs]
             first = run_impl(c, copy_inputs=False)
             second = run_impl(c, copy_inputs=False)
             ctx.count("rerun_twins")
@@ -744,6 +745,23 @@ def run_stream(ctx, model, cases, stream, tol=common.TOL, on_result=None, rerun=
             if d:
                 ctx.fail("%s: executing the command a second time over the same input arrays gives a different result (%s) - "
                          "the first execution modified its inputs" % (c.cmd, d), c.describe())
+            else:
+                for k, (a, (m0, d0)) in enumerate(zip(c.inputs, snap)):
+                    m1 = numpy.ma.getmaskarray(a)
+                    keep = ~m0
+                    if c.cmd in FUZZY_CONSUMERS:
+                        # an input declared fuzzy that holds values outside [-1, 1] is no result of any fuzzy command: limiting those in place is not held against the consumer
+                        with numpy.errstate(all="ignore"):
+                            keep = keep & (d0 >= -1) & (d0 <= 1)
+                    if not numpy.array_equal(m0, m1) or not numpy.array_equal(d0[keep], numpy.ma.getdata(a)[keep]):
+                        ctx.fail("%s: executing the command changed its input no. %d (the stored result of another command): missing cells %r -> %r, "
+                                 "values %r -> %r" % (c.cmd, k, m0.astype(int).ravel().tolist(), m1.astype(int).ravel().tolist(),
+                                                      d0[~m0].ravel().tolist()[:6], numpy.ma.getdata(a)[~m0].ravel().tolist()[:6]), c.describe())
+                        # restore, so that the twins below see the case as generated
+                        for b, (mm, dd) in zip(c.inputs, snap):
+                            b.mask = mm.copy()
+                            numpy.ma.getdata(b)[...] = dd
+                        break
         if pipeline and not trivial:
             # the same arguments through Program / Command.run / validate_params / the parameter cleaners: what the body is given, and what
             # comes back, must be what a direct call of the body gives (an argument equal to 0, "" or [] is still an argument)
@@ -762,8 +780,12 @@ def run_stream(ctx, model, cases, stream, tol=common.TOL, on_result=None, rerun=
                 ctx.fail("%s: evaluated inside a Program (arguments cleaned, body run by Command.run) the outcome differs from the body's own: %s" % (c.cmd, d), c.describe())
             else:
                 for before, after in zip(cc.inputs, piped["inputs_after"]):
+                    keep = ~numpy.ma.getmaskarray(before)
+                    if c.cmd in FUZZY_CONSUMERS:
+                        with numpy.errstate(all="ignore"):
+                            keep = keep & (numpy.ma.getdata(before) >= -1) & (numpy.ma.getdata(before) <= 1)
                     if not (numpy.array_equal(numpy.ma.getmaskarray(before), numpy.ma.getmaskarray(after)) and
-                            numpy.array_equal(numpy.ma.getdata(before)[~numpy.ma.getmaskarray(before)], numpy.ma.getdata(after)[~numpy.ma.getmaskarray(after)])):
+                            numpy.array_equal(numpy.ma.getdata(before)[keep], numpy.ma.getdata(after)[keep])):
                         ctx.fail("%s: evaluated inside a Program, the stored result of one of its inputs changed" % c.cmd, c.describe())
                         break
             if out["status"] == "ok" and ctx.rng.random() < 0.5:
